@@ -718,6 +718,26 @@ def w14(ctx, rid):
         raise core.AnchorLost('cache-emptying calls in BlobWriter: %d' % n)
 
 
+def w20(ctx, rid):
+    """`reject corrupted ones`: the metadata section is not covered by a checksum, its only check is that it decodes.  Meta::from_raw
+    therefore answers with what the deserializer produced and never with a freshly built map (a `nothing to decode` fast path
+    accepts every damaged 8-byte section of a record without attributes)"""
+    prog = ctx.prog
+    f = prog.fns.get('record::record::Meta::from_raw')
+    if f is None:
+        raise core.AnchorLost('Meta::from_raw')
+    key = 'meta-is-what-was-decoded|record::record::Meta::from_raw'
+    fresh = [c for g in prog.family(f.id) for c in prog.fns[g].calls if c.bb in prog.fns[g].reachable() and c.name in ('new', 'default')
+             and (c.path.startswith('record::record::Meta') or any('record::record::Meta' in t for t in prog.resolve(c)))]
+    des = [c for g in prog.family(f.id) for c in prog.fns[g].calls if c.bb in prog.fns[g].reachable() and c.crate == 'bincode' and c.name.startswith('deserialize')]
+    if not des:
+        ctx.bad(rid, key, f.where(), 'Meta::from_raw does not decode its input')
+    elif fresh:
+        ctx.bad(rid, key, fresh[0].where(), 'Meta::from_raw can answer with a freshly built map (`%s`) without decoding the bytes: a damaged metadata section is accepted by the validation tools and copied as intact by recovery' % fresh[0].name)
+    else:
+        ctx.ok(rid, key, des[0].where(), 'every answer is the result of the deserializer')
+
+
 RULES = [
     Rule('C16.W1', 'the tools\' record writer stamps its own position into blob_offset (and recomputes the header CRC) before serialising a header', w1, 1),
     Rule('C16.W2', 'the recovered output is re-validated whenever validation was requested', w2, 1),
@@ -737,5 +757,6 @@ RULES = [
     Rule('C16.W17', 'every tool loop asks is_eof() before each read_record (a header-only blob is a valid blob)', w17, 3),
     Rule('C16.W18', 'with skipping requested a record-level validation error always leads on to the next record', w18, 2),
     Rule('C16.W19', 'every header preprocessor of recovery / migration builds the output header from the input header', w19, 2),
+    Rule('C16.W20', 'Meta::from_raw answers only with what the deserializer produced', w20, 1),
     Rule('C16.W7', 'the index tools load through the validating loader and validate every reported header', w7, 2),
 ]
